@@ -98,6 +98,7 @@ type c27Gen struct {
 	s     *c27Snap
 	mount string
 	ops   map[string]bool
+	multi bool // file of a multi-file snap: c27MultiOps are mixed in
 }
 
 func (g *c27Gen) pick(xs ...string) string { return xs[g.r.Intn(len(xs))] }
@@ -289,7 +290,14 @@ func (g *c27Gen) template() []string {
 // c27GenCase is a pure function of (seed, shard, idx).
 func c27GenCase(r *rand.Rand, pool []*c27Snap, mountOf func(*c27Snap) string, idx int) *c27Case {
 	s := pool[r.Intn(len(pool))]
-	g := &c27Gen{r: r, s: s, mount: mountOf(s), ops: map[string]bool{}}
+	return c27GenFor(r, s, mountOf(s), idx, false)
+}
+
+// c27GenFor generates one desktop file for the given snap. With multi set the
+// operators of c27MultiOps are mixed in (the random stream of the single-file
+// phases is untouched).
+func c27GenFor(r *rand.Rand, s *c27Snap, mount string, idx int, multi bool) *c27Case {
+	g := &c27Gen{r: r, s: s, mount: mount, ops: map[string]bool{}, multi: multi}
 	cs := &c27Case{Idx: idx, Snap: s}
 	cs.FileBase = g.pick("app", "foo", g.app(), s.Name, s.instance(), "x-y.z", g.app()+"_"+g.app(), "org.example.Foo")
 	if g.pct(10) {
@@ -308,8 +316,14 @@ func c27GenCase(r *rand.Rand, pool []*c27Snap, mountOf func(*c27Snap) string, id
 	if len(lines) == 0 {
 		nmut += 2
 	}
+	if multi {
+		nmut += r.Intn(3)
+	}
 	for m := 0; m < nmut; m++ {
 		op := c27PickOp(r)
+		if g.multi && g.pct(35) {
+			op = &c27MultiOps[r.Intn(len(c27MultiOps))]
+		}
 		g.ops[op.name] = true
 		l := op.gen(g)
 		pos := r.Intn(len(lines) + 1)
